@@ -16,3 +16,6 @@ Proof.
 Qed.
 Theorem model_level_is_documented_proof : model_level_is_documented.
 Proof. intros n. unfold doc_level. split_ifs; lia. Qed.
+
+Theorem parameters_separate_iff_level_le_0_proof : parameters_separate_iff_level_le_0.
+Proof. intros c. unfold gen_level_parameters. split_ifs; lia. Qed.
